@@ -501,6 +501,9 @@ func executorFindInsertionPoints(ctx *ExecutionContext, resultLock *sync.Mutex, 
 			// if the root value is a list
 			if rootList, ok := rootValue.([]interface{}); ok {
 				for i := range oldBranch {
+					if i >= len(rootList) {
+						return nil, fmt.Errorf("Root list of result chunk is too short. Point: %v Value: %v", point, rootValue)
+					}
 					entry, ok := rootList[i].(map[string]interface{})
 					if !ok {
 						return nil, errors.New("Item in root list isn't a map")
